@@ -9,6 +9,8 @@ Open Scope Z_scope.
 Inductive case :=
 | CM (h : list Z) (limit pol cnt : Z) (rv : bool) (fuel : Z)
      (yielded : list Z) (queries : list Z) (finished : bool)
+| CMT (h : list Z) (limit pol cnt : Z) (fuel : Z) (calls : list (Z * Z))   (* (position, 0 Total | 1 FetchTotal) *)
+      (yielded : list Z) (queries : list Z) (counts : list Z) (finished : bool)
 | CD (h : list (Z * Z * Z * bool)) (limit pol cnt : Z) (fuel : Z)
      (yielded : list Z) (queries : list (Z * Z * Z)) (finished : bool).
 
@@ -20,6 +22,10 @@ Definition ok (c : case) : bool :=
   | CM h limit pol cnt rv fuel ys qs fin =>
       let '(ys', qs', _, fin') := m_iterate (m_policy_server h pol cnt rv) limit (Z.to_nat fuel) m_init in
       zlist_eqb ys' ys && zlist_eqb qs' qs && Bool.eqb fin' fin
+  | CMT h limit pol cnt fuel calls ys qs cs fin =>
+      let '(ys', qs', cs', _, fin') :=
+        m_iterate_t (m_policy_server h pol cnt false) limit (map (fun c => (Z.to_nat (fst c), snd c)) calls) (Z.to_nat fuel) 0 m_init in
+      zlist_eqb ys' ys && zlist_eqb qs' qs && zlist_eqb cs' cs && Bool.eqb fin' fin
   | CD h limit pol cnt fuel ys qs fin =>
       let '(ys', qs', _, fin') := d_iterate (d_policy_server (map to_dlg h) pol cnt) limit (Z.to_nat fuel) d_init in
       zlist_eqb (map d_peer ys') ys && list_eqb z3_eqb qs' qs && Bool.eqb fin' fin
